@@ -41,6 +41,8 @@ REQUIRED = ['GOTO', 'GOSUB', 'THEN', 'ELSE', 'RESTORE', 'RUN', 'RESUME', 'ERL', 
 
 def check(ctx, rep):
     from . import c13, _share
+    from . import c22 as _c22
+    _share.share(ctx, rep, _c22, ('scan.mode',), 'the scan for line-number references skips string literals and remarks only to the end of their line')
     _share.share(ctx, rep, c13, ('pairing.renum',), 'RENUM re-keys the line dictionary consistently with the rewritten program')
     tkm = ctx.mod(TK)
     words = ctx.const(TOK, 'Tokeniser._linenum_words')
@@ -120,6 +122,19 @@ def check(ctx, rep):
     ok = len(own) == 1 and [norm(s) for s in own[0].body] == ['self.bytecode.seek(self.line_numbers[old_line])', 'self.bytecode.read(3)',
                                                               "self.bytecode.write(struct.pack('<H', old_to_new[old_line]))"]
     rep.ob('own-number.overwritten', "each renumbered line's number field gets its new number", ok, '', ctx.where(rn))
+    # while references are rewritten the line dictionary still has the OLD numbering: the "does this target exist" test and the
+    # line-number lookup for the report read it; the dictionary is re-keyed only after the scan
+    muts = [n for n in own_nodes(rn) if (isinstance(n, ast.Delete) and any(norm(t).startswith('self.line_numbers[') for t in n.targets))
+            or (isinstance(n, ast.Call) and norm(n.func) in ('self.line_numbers.update', 'self.line_numbers.pop', 'self.line_numbers.clear'))
+            or (isinstance(n, ast.Assign) and any(norm(t).startswith('self.line_numbers') for t in n.targets))]
+    rep.floor('order.rekey-after-reference-scan', len(muts), 1, 'mutations of line_numbers in renum')
+    scan_end = getattr(lp, 'end_lineno', lp.lineno)
+    exist_tests = [c for c in own_nodes(lp) if isinstance(c, ast.Compare) and norm(c.comparators[0]) == 'self.line_numbers' and isinstance(c.ops[0], (ast.In, ast.NotIn))]
+    rep.ob('order.rekey-after-reference-scan', 'the scan tests whether an unmapped target exists', len(exist_tests) == 1, '', ctx.where(lp))
+    for m_ in muts:
+        rep.ob('order.rekey-after-reference-scan', 'renum: %s comes after the reference scan' % short(m_, 50), m_.lineno > scan_end,
+               'the dictionary is re-keyed before the scan: a dangling reference whose number coincides with a newly assigned number is taken for an existing line and not reported',
+               ctx.where(m_))
     rets = [norm(r.value) for r in own_nodes(rn) if isinstance(r, ast.Return)]
     rep.ob('own-number.map-returned', 'renum returns the map for trap remapping', rets == ['old_to_new'], repr(rets), ctx.where(rn))
     # trap remapping total
@@ -168,6 +183,7 @@ def variants(ctx):
         Va('scan-skips-all-zero-targets', 'break', PROGRAM,
            in_fn('Program.renum', lambda fn: mu.replace_expr(fn, mu.text_is('ins.backskip_blank() == tk.GOTO and ins.backskip_blank() == tk.ERROR'),
                                                              'ins.backskip_blank() == tk.GOTO')), expect='scan.only-skip'),
+        Va('line-dictionary-rekeyed-before-scan', 'break', PROGRAM, in_fn('Program.renum', _rekey_first), expect='order.rekey-after-reference-scan'),
         Va('scan-starts-at-first-renumbered-line', 'break', PROGRAM,
            in_fn('Program.renum', lambda fn: mu.replace_stmt(fn, mu.text_is('ins.seek(0)'), 'ins.seek(self.line_numbers[min(old_to_new)] if old_to_new else 0)')),
            expect='scan.from-start'),
@@ -204,3 +220,16 @@ def _step_first(fn):
             n.body.insert(n.body.index(a), b)
             return True
     return False
+
+
+def _rekey_first(fn):
+    """Move the re-keying of self.line_numbers in front of the reference scan."""
+    lp = [w for w in fn.body if isinstance(w, ast.While)]
+    i0 = [i for i, st in enumerate(fn.body) if norm(st) == 'new_lines = {}']
+    if len(lp) != 1 or len(i0) != 1:
+        return False
+    block = fn.body[i0[0]:i0[0] + 3]
+    del fn.body[i0[0]:i0[0] + 3]
+    k = fn.body.index(lp[0]) - 2
+    fn.body[k:k] = block
+    return True
